@@ -265,6 +265,45 @@ static In<double> make_input(Rng& g, int N, int kind) {
   return in;
 }
 
+// Magnitude of the rounding error of a traced expression, in units of the machine epsilon (first-order running error
+// bound): |leaf| for a variable, mag(a)+mag(b) for a sum or difference (the sum of the absolute values of the terms:
+// this is what governs the accuracy of a sum that cancels, whatever the size of its result), |b| mag(a)+|a| mag(b)
+// for a product, mag(a)/|b| + |a| mag(b)/b^2 for a quotient, mag(a)/(2 sqrt a) for a square root.  Always >= |value|.
+// The Sym-vs-double agreement compares two evaluations (double / long double) of the SAME expression DAG, so their
+// difference is bounded by a modest multiple of eps_double * mag, at every scale of the data.
+struct ValMag {
+  long double v, m;
+};
+static ValMag mag_node(int id, const Env& env, std::map<int, ValMag>& memo) {
+  auto it = memo.find(id);
+  if (it != memo.end()) return it->second;
+  const Node n = Store::get().nodes[id];
+  ValMag r{0, 0};
+  auto A = [&] { return mag_node(n.a, env, memo); };
+  auto B = [&] { return mag_node(n.b, env, memo); };
+  switch (n.op) {
+    case ADD: { const auto a = A(), b = B(); r = {a.v + b.v, a.m + b.m}; break; }
+    case SUB: { const auto a = A(), b = B(); r = {a.v - b.v, a.m + b.m}; break; }
+    case MUL: { const auto a = A(), b = B(); r = {a.v * b.v, std::fabs(b.v) * a.m + std::fabs(a.v) * b.m}; break; }
+    case DIV: { const auto a = A(), b = B(); r = {a.v / b.v, a.m / std::fabs(b.v) + std::fabs(a.v) * b.m / (b.v * b.v)}; break; }
+    case NEG: { const auto a = A(); r = {-a.v, a.m}; break; }
+    case ABS: { const auto a = A(); r = {std::fabs(a.v), a.m}; break; }
+    case SQRT: { const auto a = A(); const long double q = std::sqrt(a.v); r = {q, a.v > 0 ? a.m / (2 * q) : std::sqrt(a.m)}; break; }
+    default: {  // leaves and anything else: its own size
+      std::map<int, long double> m2;
+      const long double v = eval_node(id, env, m2);
+      r = {v, std::fabs(v)};
+    }
+  }
+  if (!(r.m >= std::fabs(r.v))) r.m = std::fabs(r.v);  // also replaces a NaN magnitude
+  memo[id] = r;
+  return r;
+}
+static long double magnitude(const Sym& s, const Env& env) {
+  std::map<int, ValMag> memo;
+  return mag_node(node_of(s), env, memo).m;
+}
+
 static bool uses(const OpDesc& o, char c) { return std::strchr(o.uses, c) != nullptr; }
 
 // operations whose matrix meaning needs the matrix to have the block form of the dimension (N=2: in-plane rotation,
@@ -361,7 +400,12 @@ int main(int argc, char** argv) {
               tol *= std::max(1., cond * cond);
               if (cond > 1e4) continue;
             }
-            for (size_t i = 0; ok && i < out.size(); ++i) ok = close(ev[i], dout[i], scale, tol);
+            // per output: the larger of the size of the results (as before) and the magnitude of the terms that were
+            // added up to form it (a cancelling sum of products ~1e54 cannot be compared relative to its result)
+            for (size_t i = 0; ok && i < out.size(); ++i) {
+              const long double mg = magnitude(out[i], env);
+              ok = close(ev[i], dout[i], std::isfinite(static_cast<double>(mg)) ? std::max(scale, mg) : scale, tol);
+            }
             ++done;
             if (!ok) {
               ++bad;
